@@ -96,6 +96,23 @@ def check(ctx):
         # no const fn silently lost from the surface: every const fn of the build is on the list (new ones are fine)
         div = divergence_sites(db)
         ctx.ob("C18.D", "divergence intrinsics (%s)" % cfg, not div, "calls to const_eval_select-style intrinsics in the crate: %s" % (div or "none"), cfg=cfg)
+        # C18.P: no raw access through a pointer into a local whose storage has ended (the const evaluator frees the local and rejects the access;
+        # at run time it is undefined behaviour).  Sweep over every body of the crate, private helpers expanded.
+        from ..dangling import dangling_uses
+        n_sw = 0
+        for bd in db.bodies:
+            if bd["kind"] not in ("Fn", "AssocFn", "Closure") or ctx.is_helper(cfg, bd):
+                continue
+            if not any(s_["k"] == "sdead" for blk in bd["mir"]["blocks"] for s_ in blk["stmts"]):
+                continue
+            if not any(t["term"]["k"] == "call" and t["term"]["f"].get("k") == "fn" and t["term"]["f"]["def"].startswith(("core::ptr::", "core::mem::transmute_copy", "core::slice::from_raw_parts")) for t in bd["mir"]["blocks"]) \
+                    and not any(s_["k"] == "assign" and s_["rv"].get("k") in ("rawptr",) for blk in bd["mir"]["blocks"] for s_ in blk["stmts"]):
+                continue
+            a_ = ctx.analysis(cfg, bd["key"])
+            n_sw += 1
+            for j, (at_, loc_, what) in enumerate(dangling_uses(a_)):
+                ctx.ob("C18.P", "%s#dangling#%d" % (bd["key"], j), REFUTED, what, at=at_, cfg=cfg)
+        ctx.ob("C18.P", "sweep (%s)" % cfg, n_sw >= 10, "bodies with raw pointer operations swept for accesses to storage-dead locals: %d" % n_sw, cfg=cfg)
         # UB-freedom obligations of the const fns: cross-referenced rule instances
         check_views(ctx, cfg)
         check_const_transmute(ctx, cfg)
